@@ -49,7 +49,7 @@ ASSUMPTIONS = [
     "pipes handed out by threadsafe_event_trigger belong to the Input object, not to the context, and are not counted as leaks",
     "the initial state has a visible cursor and the main screen active",
 ]
-PROBES = ["crash_after_prefix", "keyboardinterrupt_from_select", "eio_in_read", "depth_ge_3", "non_main_thread",
+PROBES = ["carried_on_after_exception", "crash_after_prefix", "keyboardinterrupt_from_select", "eio_in_read", "depth_ge_3", "non_main_thread",
           "initial_nonblock_set", "preexisting_wakeup_fd", "hide_cursor_false", "nested_inputs", "input_reused",
           "termmode_reentered", "sigint_event_true", "custom_sigint_handler", "fullscreen_in_scenario", "cursoraware_in_scenario",
           "request_returned_sigint_event", "trigger_pipe_created", "disable_start_stop"]
@@ -252,6 +252,13 @@ def gen_plan(seed, tier, index=0, avoid=()):
         for _ in range(rng.choice((1, 1, 2, 3))):
             kind = rng.choice(("Input", "Input", "FullscreenWindow", "CursorAwareWindow", "Cbreak", "Nonblocking", "Termmode"))
             tree.append(g.node(kind, [], 0))
+    if rng.random() < 0.3 and tree:
+        after = [g.node(rng.choice(("Input", "Input", "Cbreak", "Nonblocking", "CursorAwareWindow")), [], 0)]
+        if rng.random() < 0.5 and any(n.get("ctx") == "Input" for n in tree):
+            first = [n for n in tree if n.get("ctx") == "Input"][0]
+            g.ops = 0
+            after.append({"ctx": "Input", "id": first["id"], "args": first["args"], "body": g.body([first], 1)})
+        tree = [{"ctx": "Try", "id": g.new_id("y"), "body": tree}] + after
     flags = _os.O_RDWR
     if "initial_nonblock" not in avoid and rng.random() < 0.3:
         flags |= _os.O_NONBLOCK
@@ -385,7 +392,9 @@ def _count_points(p):
 
     def walk(items):
         for it in items:
-            if "ctx" in it:
+            if it.get("ctx") == "Try":
+                walk(it["body"])
+            elif "ctx" in it:
                 walk(it["body"])
                 n[0] += 1          # end of this body
             else:
@@ -544,7 +553,16 @@ class _Exec:
     # ---- interpretation ------------------------------------------------------------------
     def run_items(self, items):
         for it in items:
-            if "ctx" in it:
+            if it.get("ctx") == "Try":
+                # the application catches whatever leaves this part and carries on: contexts are used
+                # again after one of them was left by an exception
+                try:
+                    self.run_items(it["body"])
+                except (CrashBase, CrashExc, KeyboardInterrupt, OSError) as e:
+                    self.world.log.add("caught", type(e).__name__)
+                    self.world.probe("carried_on_after_exception")
+                    self.crash = {}
+            elif "ctx" in it:
                 self.run_ctx(it)
             else:
                 self.crash_point()
